@@ -432,6 +432,11 @@ def run(ck, kind, replay_path=None):
               "no guard held, no hook event for 250 ms; wall-clock timeouts are inconclusive")
     ck.assume("livelock verdict is a count, not a clock: one blocking call passed 300000 (Miri: 3000) hook points / futex-wait entries without sleeping while "
               "no operation of any thread completed, the monitor's occupancy of that lock is zero and every other thread is finished, parked or inside a blocking call")
+    if kind == "m":
+        ck.assume("under Miri (weak-memory emulation on) a failed try_lock without an overlapping interval is judged only when every earlier release of that "
+                  "mutex provably happens-before the call (released by the caller, caller acquired the mutex since, or all threads joined); otherwise it is "
+                  "counted as try_lock_failures_not_judged_concurrent_release_weak_memory (this run: %d). Natively the stamp rule is judged as is"
+                  % c.get("try_lock_failures_not_judged_concurrent_release_weak_memory", 0))
     ck.assume("every job has a hard wall-clock bound (process group killed) and the batch a deadline; hitting either is reported as 'watchdog' and is never a verdict")
     if kind == "rw":
         ck.assume("a refused try_read is accepted when a writer's outer interval (call..drop) or a blocking read() call of another thread overlaps it (a waiting bit may have been set)")
